@@ -276,9 +276,9 @@ func TestC23(t *testing.T) {
 		}
 		feats := gen.AllFeatures()
 		feats.Histograms, feats.Unary, feats.NoUnaryOnBool, feats.TimeBuiltins = true, true, true, true
-		feats.QuotedKeys, feats.HostileStrings, feats.SmallBuckets = true, true, true
+		feats.QuotedKeys, feats.HostileStrings, feats.SmallBuckets, feats.OddDurations = true, true, true, true
 		feats.PinTypes, feats.OnePatternPerCond, feats.NoMixedMetricReads = true, true, true
-		nAccepted, nBinary := 0, 0 // the binary is run on a bounded sample (three process launches per run)
+		nAccepted, nBinary, nRejected := 0, 0, 0 // the binary is run on a bounded sample (three process launches per run)
 		st.Check(t, func(rt *rapid.T) {
 			var c c23Case
 			defer st.Guard(func() any { return c })
@@ -312,9 +312,15 @@ func TestC23(t *testing.T) {
 				}
 			} else {
 				st.Class("rejected-by-checker")
+				nRejected++
 			}
 			st.Report(rt, f, c)
 		})
+		// generator health: G's programs are meant to be accepted; a high
+		// rejection rate means the generator (not mtail) needs fixing
+		if nAccepted > 200 && nRejected*5 > nAccepted {
+			st.Inconclusive(t, "%d of %d generated programs were rejected by the compiler: the generator is producing invalid programs", nRejected, nAccepted)
+		}
 	})
 }
 
